@@ -270,7 +270,7 @@ h("cont.H_OptionalFault", map[string]int{"rounds": 3, "order_schemes": 1}, map[s
 				hx.Quick = map[string]int{"ops": 1, "order_schemes": 1, "worlds": 1}
 			}
 			properties[i].Harnesses = append(properties[i].Harnesses, hx)
-			if properties[i].ID == "C02" || properties[i].ID == "C12" {
+			if properties[i].ID == "C02" {
 				properties[i].Harnesses = append(properties[i].Harnesses, hg2)
 			}
 			if properties[i].ID == "C10" {
